@@ -18,6 +18,7 @@ package main
 import (
 	"errors"
 	"fmt"
+	"math"
 	"os"
 	"sort"
 	"strconv"
@@ -133,6 +134,104 @@ var convAny = conv[any]{
 		}
 		return "?"
 	},
+}
+
+// Value types sync.Map never looks into (monitor only; the Lean model's values are integers with
+// decidable equality and does not define them): V an uncomparable type ([]int), V = any holding
+// uncomparable dynamic values (maps, slices, funcs) next to ints and nil, and V = float64 with values
+// that are equal but distinct (+0 / -0) or unequal to themselves (NaN), shown by their bits. Tokens name
+// fixed objects, so the wrapper run and the sync.Map run store the very same values.
+var convStr = conv[string]{
+	parse: func(s string) string { return "k" + s },
+	show:  func(s string) string { return strings.TrimPrefix(s, "k") },
+}
+var sliceTable = [][]int{{0, 0}, {1, 1}, {2, 2}}
+var convSlice = conv[[]int]{
+	parse: func(s string) []int {
+		switch s {
+		case "nil":
+			return nil
+		case "e":
+			return []int{}
+		}
+		v, _ := strconv.Atoi(s)
+		return sliceTable[((v%3)+3)%3]
+	},
+	show: func(x []int) string {
+		switch {
+		case x == nil:
+			return "nil"
+		case len(x) == 0:
+			return "e"
+		}
+		return strconv.Itoa(x[0])
+	},
+}
+var mapTable = []map[string]int{{"id": 0}, {"id": 1}, {"id": 2}}
+var funcTable = []func() int{func() int { return 0 }, func() int { return 1 }}
+var convAnyU = conv[any]{
+	parse: func(s string) any {
+		if s == "nil" {
+			return nil
+		}
+		if len(s) >= 2 {
+			i := int(s[1]-'0') % 2
+			switch s[0] {
+			case 'm':
+				return mapTable[int(s[1]-'0')%3]
+			case 's':
+				return sliceTable[i]
+			case 'f':
+				return funcTable[i]
+			}
+		}
+		v, _ := strconv.Atoi(s)
+		return v
+	},
+	show: func(x any) string {
+		switch v := x.(type) {
+		case nil:
+			return "nil"
+		case int:
+			return strconv.Itoa(v)
+		case map[string]int:
+			return "m" + strconv.Itoa(v["id"])
+		case []int:
+			if len(v) > 0 {
+				return "s" + strconv.Itoa(v[0])
+			}
+		case func() int:
+			return "f" + strconv.Itoa(v())
+		}
+		return "?"
+	},
+}
+var floatTokens = map[string]float64{"0": 0, "n0": math.Copysign(0, -1), "1": 1, "n1": -1, "nan": math.NaN(), "inf": math.Inf(1)}
+var convFloat = conv[float64]{
+	parse: func(s string) float64 { return floatTokens[s] },
+	show:  func(f float64) string { return fmt.Sprintf("%#016x", math.Float64bits(f)) },
+}
+
+// monitorOnly lists the instantiations above with the value tokens their generators draw from.
+var monitorOnly = map[string][]string{
+	"string/slice": {"nil", "e", "0", "1", "2"},
+	"int/anyu":     {"nil", "0", "1", "m0", "m1", "m2", "s0", "s1", "f0", "f1"},
+	"string/float": {"0", "n0", "1", "n1", "nan", "inf"},
+}
+var monitorOnlyCombos = []string{"string/slice", "int/anyu", "string/float"}
+
+// comparableToken: may the token be the `old` argument of CompareAndSwap / CompareAndDelete? sync.Map
+// itself panics when it compares two values of one uncomparable dynamic type (documented: "the old value
+// must be of a comparable type"), and the runtime panic is raised inside its node lock; such calls are
+// outside what either map defines and are not generated.
+func comparableToken(types, tok string) bool {
+	switch types {
+	case "string/slice":
+		return false
+	case "int/anyu":
+		return tok == "nil" || (tok[0] != 'm' && tok[0] != 's' && tok[0] != 'f')
+	}
+	return true
 }
 
 func showPairs(p []string) string {
@@ -307,6 +406,12 @@ func run(types string, ops []Op) (typed, ref []string) {
 		return runTyped(ops, convAny, convInt), runSync(ops, convAny, convInt)
 	case "any/any":
 		return runTyped(ops, convAny, convAny), runSync(ops, convAny, convAny)
+	case "string/slice":
+		return runTyped(ops, convStr, convSlice), runSync(ops, convStr, convSlice)
+	case "int/anyu":
+		return runTyped(ops, convInt, convAnyU), runSync(ops, convInt, convAnyU)
+	case "string/float":
+		return runTyped(ops, convStr, convFloat), runSync(ops, convStr, convFloat)
 	}
 	return nil, nil
 }
@@ -422,7 +527,7 @@ func check(types string, ops []Op, m *vlib.Model, res *vlib.Result) {
 		}
 		res.Fail(vlib.Failure{Source: "monitor", Kind: k, Params: params, What: what, Case: Case{Types: types, Ops: opLines(small)}})
 	}
-	if m == nil {
+	if m == nil || monitorOnly[types] != nil {
 		return
 	}
 	typed, _ := run(types, ops)
@@ -512,6 +617,87 @@ func genCase(r *vlib.Rand, res *vlib.Result) (string, []Op) {
 		}
 	}
 	return types, ops
+}
+
+// genCaseU: random sequences for the monitor-only instantiations; stores on present keys dominate.
+func genCaseU(r *vlib.Rand, res *vlib.Result) (string, []Op) {
+	types := monitorOnlyCombos[r.Intn(len(monitorOnlyCombos))]
+	toks := monitorOnly[types]
+	res.Count("types-" + types)
+	key := func() string { return strconv.Itoa(r.Range(1, 2)) }
+	val := func() string { return toks[r.Intn(len(toks))] }
+	old := func() (string, bool) {
+		for i := 0; i < 8; i++ {
+			if t := val(); comparableToken(types, t) {
+				return t, true
+			}
+		}
+		return "", false
+	}
+	n := r.Range(2, 12)
+	var ops []Op
+	for len(ops) < n {
+		switch r.Pick(4, 8, 1, 2, 4, 4, 2, 2, 2, 1) {
+		case 0:
+			ops = append(ops, Op{Name: "load", K: key()})
+		case 1:
+			ops = append(ops, Op{Name: "store", K: key(), V: val()})
+		case 2:
+			ops = append(ops, Op{Name: "delete", K: key()})
+		case 3:
+			ops = append(ops, Op{Name: "loadanddelete", K: key()})
+		case 4:
+			ops = append(ops, Op{Name: "loadorstore", K: key(), V: val()})
+		case 5:
+			ops = append(ops, Op{Name: "swap", K: key(), V: val()})
+		case 6:
+			if o, ok := old(); ok {
+				ops = append(ops, Op{Name: "cas", K: key(), O: o, V: val()})
+			}
+		case 7:
+			if o, ok := old(); ok {
+				ops = append(ops, Op{Name: "cad", K: key(), O: o})
+			}
+		case 8:
+			ops = append(ops, Op{Name: "range"})
+		case 9:
+			ops = append(ops, Op{Name: "rangestop", K: strconv.Itoa(r.Range(0, 3))})
+		}
+	}
+	return types, ops
+}
+
+// overwriteCases (every run): for each monitor-only instantiation and every ordered pair (v1, v2) of its
+// value tokens, each writing operation puts v2 over a key that holds v1, and every reading operation then
+// reports what the key holds: Store / Swap / LoadOrStore on a present key, and CompareAndSwap where the
+// old value is comparable.
+func overwriteCases() (out []struct {
+	types string
+	ops   []Op
+}) {
+	add := func(types string, ops ...Op) {
+		out = append(out, struct {
+			types string
+			ops   []Op
+		}{types, ops})
+	}
+	for _, types := range monitorOnlyCombos {
+		for _, v1 := range monitorOnly[types] {
+			for _, v2 := range monitorOnly[types] {
+				for _, first := range []string{"store", "loadorstore", "swap"} {
+					add(types, Op{Name: first, K: "1", V: v1}, Op{Name: "store", K: "1", V: v2}, Op{Name: "load", K: "1"},
+						Op{Name: "range"}, Op{Name: "swap", K: "1", V: v1}, Op{Name: "loadorstore", K: "1", V: v2},
+						Op{Name: "store", K: "2", V: v2}, Op{Name: "store", K: "2", V: v1}, Op{Name: "range"},
+						Op{Name: "loadanddelete", K: "1"}, Op{Name: "loadanddelete", K: "2"}, Op{Name: "load", K: "1"})
+				}
+				if comparableToken(types, v1) {
+					add(types, Op{Name: "store", K: "1", V: v1}, Op{Name: "cas", K: "1", O: v1, V: v2}, Op{Name: "load", K: "1"},
+						Op{Name: "store", K: "1", V: v1}, Op{Name: "swap", K: "1", V: v2}, Op{Name: "cad", K: "1", O: v1}, Op{Name: "load", K: "1"})
+				}
+			}
+		}
+	}
+	return out
 }
 
 // stopCases: Range's stop protocol systematically — for every type combination, maps of every size
@@ -623,6 +809,7 @@ func main() {
 		"for (K,V) in {int,any} x {int,error,any} incl. stored nil interface values and the nil key, 4 modes (mixed, present-heavy, nil-heavy, absent-heavy); "+
 		"plus, systematically, maps of every size 0..4 with a Range callback stopping at every position 0..size+1 (count of invocations compared with sync.Map and the model; visited pairs must be distinct entries); "+
 		"a case is non-trivial if it has >= 3 ops and applies operations to an absent and to a present key (systematic Range cases: >= 4 ops); distinct = different (types, op sequence). "+
+		"monitor only (no model): Map[string,[]int], Map[int,any] holding maps / slices / funcs / ints / nil, Map[string,float64] with +0, -0, NaN shown by their bits - every ordered pair of values through Store / Swap / LoadOrStore / CompareAndSwap on a present key in every run, and one random case in four; "+
 		"thorough adds every sequence of length 3 over a reduced alphabet for all five type combinations")
 	m, err := vlib.StartModel(env.Driver, "tmap")
 	if err != nil {
@@ -647,7 +834,9 @@ func main() {
 		}
 		k, what, _ := monitor(c.Types, ops)
 		fmt.Printf("monitor: %s %s\n", k, what)
-		if m != nil {
+		if monitorOnly[c.Types] != nil {
+			fmt.Println("correspondence: this instantiation is outside the model (monitor only)")
+		} else if m != nil {
 			if mo, err := m.Run(modelLines(c.Types, ops)); err == nil {
 				if i := modelDiff(ops, typed, mo[1:]); i >= 0 {
 					fmt.Printf("correspondence: op %d impl %q model %q\n", i, at(typed, i), at(mo[1:], i))
@@ -681,6 +870,11 @@ func main() {
 		res.Case(sc.types+"|"+strings.Join(opLines(sc.ops), ";"), len(sc.ops) >= 4, nil)
 		check(sc.types, sc.ops, m, res)
 	}
+	for _, oc := range overwriteCases() {
+		res.Count("overwrite-systematic")
+		res.Case(oc.types+"|"+strings.Join(opLines(oc.ops), ";"), true, nil)
+		check(oc.types, oc.ops, m, res)
+	}
 	r := vlib.NewRand(env.Seed)
 	deadline := time.Now().Add(time.Duration(env.BudgetMs) * time.Millisecond / 2)
 	maxCases := 4000
@@ -688,7 +882,13 @@ func main() {
 		maxCases = 100000
 	}
 	for i := 0; i < maxCases && time.Now().Before(deadline); i++ {
-		types, ops := genCase(r.Fork(), res)
+		var types string
+		var ops []Op
+		if i%4 == 3 {
+			types, ops = genCaseU(r.Fork(), res)
+		} else {
+			types, ops = genCase(r.Fork(), res)
+		}
 		res.CountN("ops", len(ops))
 		res.Case(types+"|"+strings.Join(opLines(ops), ";"), nontrivial(types, ops), map[string]interface{}{"types": types, "ops": opLines(ops)})
 		check(types, ops, m, res)
